@@ -1,6 +1,7 @@
 SPECIFICATION Spec
 CONSTANT WithUnkillable = FALSE
 CONSTANT Fix_BoundFinalWait = TRUE
+CONSTANT Fix_GuardEndmarkerCallbacks = TRUE
 CONSTANT WithLinger = FALSE
 CONSTANT Fix_HardExit = TRUE
 CONSTANT KillOnTimeout = FALSE
